@@ -3,7 +3,7 @@ import itertools
 import sys
 import types
 
-sys.path.insert(0, "/repo")
+sys.path.insert(0, __import__("os").environ.get("VERIF_REPO", "/repo"))
 from ..common import cq, cb, cn, clist, cpair
 from ..unit import Unit
 
